@@ -80,3 +80,41 @@ def carve_request(ds, cfg, f, labels, Xd, Xd_dev, kind, flags):
            "dev": None if Xd_dev is None else rows_for(kind, alll, Xd_dev[f], ds["y_dev"], dev=True,
                                                         fill_absent_binary=None if flags.get("poison", False) else 0)}
     return req
+
+
+def rank_oracle(pairs):
+    """what `train_rates.sort_values("target_rate").index == dev_rates.sort_values("target_rate").index` gives on
+    the very rate vectors (doubles nearest to the exact rates, which is what the code's divisions / means produce):
+    the resolution of rank tests that exact ties leave open.  Pairs holding an undefined rate are left open."""
+    out = []
+    for tr, dv in pairs:
+        if any(v is None for v in tr + dv) or len(tr) != len(dv):
+            continue
+        a = pd.DataFrame({"target_rate": [float(fractions.Fraction(v)) for v in tr]}, index=list(range(len(tr))))
+        b = pd.DataFrame({"target_rate": [float(fractions.Fraction(v)) for v in dv]}, index=list(range(len(dv))))
+        ok = bool(all(a.sort_values("target_rate").index == b.sort_values("target_rate").index))
+        out.append([tr, dv, ok])
+    return out
+
+
+def call_carve(drv, req, stats=None):
+    """`carve` request; rank tests left open by rate ties are resolved with `rank_oracle` and the request repeated
+    (the resolution can change the stage-1 winner, hence the stage-2 tests: a few rounds at most)"""
+    req = dict(req)
+    oracle, seen = [], set()
+    res = drv.call(req)
+    for _ in range(6):
+        un = [p for p in res.get("unresolved", []) if json.dumps(p) not in seen]
+        if not un:
+            break
+        for p in un:
+            seen.add(json.dumps(p))
+        new = rank_oracle(un)
+        if not new:
+            break
+        oracle += new
+        if stats is not None:
+            stats["rank_ties_resolved"] = stats.get("rank_ties_resolved", 0) + len(new)
+        req["rank_oracle"] = oracle
+        res = drv.call(req)
+    return res
